@@ -173,7 +173,7 @@ fn gen_dash(rng: &mut Rng, path_len_user: f64) -> (Vec<f32>, f32) {
         3 => vec![-1., 1.],                     // sums to zero: disabled
         4 => vec![-3., 1.],                     // negative total: disabled
         5 => vec![f32::NAN, 2.],                // NaN total: disabled
-        6 => vec![3e38, 3e38],                  // overflows to infinity
+        6 => rng.pick(&[vec![3e38f32, 3e38], vec![3e38], vec![f32::MAX], vec![1e38, 1e38, 1e38], vec![2e38, 0., 1e38]]).clone(), // sums (or doubled sums) that overflow to infinity
         7 => vec![f32::INFINITY, 1.],
         8 => vec![1e30, 0.],
         9 => vec![0., 5.],
@@ -229,9 +229,13 @@ fn path_len(ops: &[PathOp]) -> f64 {
                     first = cur
                 }
             }
+            // (a curve without a current point starts at its first control point, which also becomes
+            // the subpath's start: a later Close comes back to it)
             PathOp::QuadTo(c1, p) => {
                 if let Some(c) = cur {
                     len += d(c, *c1);
+                } else {
+                    first = Some(*c1);
                 }
                 len += d(*c1, *p);
                 cur = Some(*p);
@@ -239,6 +243,8 @@ fn path_len(ops: &[PathOp]) -> f64 {
             PathOp::CubicTo(a, b, p) => {
                 if let Some(c) = cur {
                     len += d(c, *a);
+                } else {
+                    first = Some(*a);
                 }
                 len += d(*a, *b) + d(*b, *p);
                 cur = Some(*p);
@@ -536,7 +542,7 @@ fn gen_seq(rng: &mut Rng) -> Seq {
             25 => {
                 let (sw, sh) = (rng.int(0, 9) as i32, rng.int(0, 9) as i32);
                 let far = rng.chance(0.3);
-                let lim = if far { 1_000_000 } else { 12 };
+                let lim = if far { 100_000_000 } else { 12 };
                 let r = (rng.int(-lim, lim) as i32, rng.int(-lim, lim) as i32, rng.int(-lim, lim) as i32, rng.int(-lim, lim) as i32);
                 calls.push(Call::Extra(Extra::CopySurface(sw, sh, r, (rng.int(-lim, lim) as i32, rng.int(-lim, lim) as i32), rng.below(3) as u8, rng.below(28) as usize, gen_alpha(rng))));
             }
@@ -809,7 +815,7 @@ fn run_local(ctx: &Ctx) -> Outcome {
 }
 
 const RULE: &str = "grammar-generated call sequences (1..12 calls) over DrawTarget constructors, fill, stroke (dashed and not), fill_rect, clear, mask, draw_image_*, push/pop clip(_rect), push/pop layer, set_transform, copy/blend_surface(_with_alpha), byte views, write_png, PathBuilder (arc, rect, cubic), Path::{flatten, contains_point, transform} and all Source constructors, with boundary-biased values inside the stated domain \
-(device-space geometry incl. stroke outset within +-3990; surfaces 0..64; transforms with scale 1e-4..1e4 or singular; >= 1 gradient stop at increasing positions, positive radii; dash arrays all non-negative or with a non-positive/NaN total, <= 5000 dashes; any dash offset; any alpha/opacity incl. NaN and infinities; any clip rect incl. inverted and i32 extremes; copy rects within +-1e6). Executed in worker subprocesses in the chk build (overflow checks and debug assertions on in every crate) under catch_unwind with a heartbeat; \
+(device-space geometry incl. stroke outset within +-3990; surfaces 0..64; transforms with scale 1e-4..1e4 or singular; >= 1 gradient stop at increasing positions, positive radii; dash arrays all non-negative or with a non-positive/NaN total, <= 5000 dashes; any dash offset; any alpha/opacity incl. NaN and infinities; any clip rect incl. inverted and i32 extremes; copy rects within +-1e8). Executed in worker subprocesses in the chk build (overflow checks and debug assertions on in every crate) under catch_unwind with a heartbeat; \
 a panic, an abort, an iteration-bound overrun (verif::tick) or a case that finishes in neither of two isolated re-runs is a violation. Non-trivial: a sequence of at least two calls; distinct = hash of the sequence.";
 
 pub fn run(ctx: &Ctx) -> Outcome {
